@@ -25,7 +25,8 @@ def classifiers():
         ('C01-excl-newline', lambda m: m['name'] is not None and m['name'].endswith('\n') and 'xN' in m['ast']
          and m['impl'] is False and m['lb'] is True),
         ('C01-group-dot-guard-repeat', lambda m: m['name'] is not None and not m['dot'] and m['ast'].startswith('x')
-         and ('xS' in m['ast'] or 'xP' in m['ast']) and '.' in m['name'][1:] and m['impl'] is False and m['lb'] is True),
+         and ('xS' in m['ast'] or 'xP' in m['ast']) and '.' in m['name'][1:] and
+         ((m['impl'] is False and m['lb'] is True) or (m['ast'].startswith('xN') and m['impl'] is True and m['ub'] is False))),
     ]
 
 
